@@ -100,6 +100,15 @@ def run(tier):
         cheats.append({"kind": "presigncheat", "proto": "cmp-presign", "n": 3, "t": 2, "byz": byz, "variant": v, "rule": rule,
                        "stage": c["stage"], "coded": c["coded"], "sched": vlib.seed() * 7 + len(cheats)})
     rep.notes.append("presign deviation catalogue from PresignAlg.tla: %d cases, %d run on the real protocol" % (len(catalogue), len(cheats)))
+    # state-level dealers and committers (see c03.py): whoever ends with an error must name the deviating party, never
+    # itself or another honest party
+    for i, (pr, b, a) in enumerate((pr, b, a) for pr in ("frost-keygen", "frost-refresh", "cmp-keygen", "cmp-refresh") for b in ("a", "b", "c")
+                                   for a in ("plus", "minus", "nonzero", "commit:c-short", "commit:c-long", "commit:rid-short")
+                                   if not (a == "nonzero" and pr != "cmp-refresh") and not (a == "commit:rid-short" and pr.startswith("frost"))):
+        if quick and (i + vlib.seed()) % 3:
+            continue
+        cheats.append({"kind": "dealercheat", "proto": pr, "n": 3, "t": 1 if not (pr == "cmp-keygen" and a == "minus") else 2, "byz": b, "alt": a,
+                       "sched": vlib.seed() * 5 + 300 + i})
     st = adv.run_family(rep, wd, plan(quick), PROP, vlib.seed(), {"C04"}, shards=14, extra_scen=cheats)
     states += st["states"]; trans += st["transitions"]
     rep.cov.update({"distinct_nontrivial": st["distinct"], "states": states, "transitions": trans,
